@@ -114,6 +114,7 @@ func TestC10(t *testing.T) {
 	cfg.MaxBurst = 12
 	cfg.POnTop = 12
 	cfg.PApi = 20
+	cfg.PMacro = 22
 	engine.CheckE1(t, "C10", cfg, func(c *engine.Case, w *engine.World) bool {
 		return f(w, "plug") > 0 && w.M.NDeleteSelf+w.M.NMoveSelf > 0
 	})
